@@ -339,6 +339,20 @@ theorem framing_roundtrip_scgi (H : Bytes) (hH : HeadOk H) (ws : List Bytes) (la
     rw [this]
     exact splitHead_append H _ hH
 
+
+/-- **one header block from the header set** (SCGI/FastCGI): what `format_xcgi_response_headers` makes of
+the response's headers — the map entries as `Name: value` lines in map order, then the added
+headers/cookies in insertion order, then a blank line — is exactly one header block (`HeadOk`, the
+hypothesis of the two round-trip theorems) whenever no line is empty or contains a CR. -/
+theorem header_block_once_xcgi (h : Headers) (hne : h.lines none ≠ []) (hok : ∀ l ∈ h.lines none, LineOk l) :
+    HeadOk (xcgiHeaders false h) ∧ xcgiHeaders false h = joinLines (h.lines none) ++ [13, 10] :=
+  xcgi_headOk h hne hok
+
+/-- non-vacuity: `Content-Type: text/html` set, a cookie added -/
+example : (({} : Headers).set [67,111,110,116,101,110,116,45,84,121,112,101] [116,101,120,116,47,104,116,109,108] |>.addRaw [83,101,116,45,67,111,111,107,105,101,58,97,61,98]).lines none
+    = [[67,111,110,116,101,110,116,45,84,121,112,101,58,32,116,101,120,116,47,104,116,109,108], [83,101,116,45,67,111,111,107,105,101,58,97,61,98]] := by
+  decide
+
 /-- non-vacuity of `HeadOk`: `Content-Type: text/html CRLF CRLF` -/
 example : HeadOk [67,111,110,116,101,110,116,45,84,121,112,101,58,32,116,101,120,116,47,104,116,109,108,13,10,13,10] := by
   unfold HeadOk; decide
